@@ -77,6 +77,11 @@ fn seg_case(rep: &mut Report, s: Segment, fi: usize, pos: bool) {
         let ok = b == a || (*nk2 == nk && b.is_none() && a == Some(0) && pos);
         if !ok { rep.violation(format!("feat-interference:{name}->{name2}"), || json!({"case": case(), "expected": format!("{b:?}"), "observed": format!("{a:?}")})); }
     }
+    // nothing outside the node that holds the feature is written: the three byte-sized nodes bit for bit, the place as a whole
+    let bytes = |x: &Segment| [x.root, x.manner, x.laryngeal];
+    let which = match nk { asca::NodeKind::Root => Some(0), asca::NodeKind::Manner => Some(1), asca::NodeKind::Laryngeal => Some(2), _ => None };
+    for k in 0..3 { if which != Some(k) && bytes(&s)[k] != bytes(&t)[k] { rep.violation(format!("set_feat-wrote-another-node:{name}"), || json!({"case": case(), "node": k, "expected": bytes(&s)[k], "observed": bytes(&t)[k]})); } }
+    if let Some(k) = which { if (bytes(&s)[k] ^ bytes(&t)[k]) & !mask != 0 { rep.violation(format!("set_feat-wrote-other-bits:{name}"), || json!({"case": case(), "expected": bytes(&s)[k], "observed": bytes(&t)[k]})); } if *s.place != *t.place { rep.violation(format!("set_feat-touched-the-place:{name}"), || json!({"case": case()})); } }
     // whole-node views agree with the place getters
     if wf(*s.place) && !wf(*t.place) { rep.violation(format!("set_feat-not-closed:{sign}{name}"), || json!({"case": case(), "observed": format!("{:?}", *t.place)})); }
 }
@@ -90,6 +95,8 @@ fn node_case(rep: &mut Report, s: Segment, i: usize, v: Option<u8>) {
     if !t.node_match(SUB[i], v) { rep.violation(format!("node_match-after-set_node:{}", NODE[i]), || json!({"case": case()})); }
     if t.is_node_some(SUB[i]) != v.is_some() || t.is_node_none(SUB[i]) != v.is_none() { rep.violation(format!("is_node_some-after-set_node:{}", NODE[i]), || json!({"case": case()})); }
     if (t.root, t.manner, t.laryngeal) != (s.root, s.manner, s.laryngeal) { rep.violation(format!("set_node-touched-other-node:{}", NODE[i]), || json!({"case": case()})); }
+    // the other three sub-nodes read as before
+    for j in 0..4 { if j != i && t.get_node(SUB[j]) != s.get_node(SUB[j]) { rep.violation(format!("set_node-interference:{}->{}", NODE[i], NODE[j]), || json!({"case": case(), "expected": format!("{:?}", s.get_node(SUB[j])), "observed": format!("{:?}", t.get_node(SUB[j]))})); } }
     let (a, b, c, d) = t.get_place_sub_nodes();
     if [a, b, c, d] != gets(&t.get_place_node()) { rep.violation("get_place_sub_nodes-disagrees".into(), || json!({"case": case()})); }
     if t.is_place_some() != t.get_place_node().is_some() || t.is_place_none() == t.is_place_some() { rep.violation("is_place_some-disagrees".into(), || json!({"case": case()})); }
